@@ -210,6 +210,12 @@ def _run_pdy(ctx):
     _mutable_defaults(_RC(ctx), rule="D-default", modules=None, need_one=True)
     res.rule("Y-layout", "guard only: no layout-revealing API (.strides .flags .data .ctypes .base .view() .tobytes() np.frombuffer order='K|A|F') applied to an argument-derived array")
     res.rule("Y-dtype", "guard only: no float-valued store into an array whose dtype is inherited from an argument (*_like / .copy() / np.array(arg))")
+    res.rule("Y-int", "guard only: no geometric primitive, metric or fit helper computes in fixed-width integer arithmetic an intermediate that can wrap around for "
+                      "integer-typed input (the int64 and the float64 representation of the same curve must give the same result)")
+    from . import c16 as _c16, c17 as _c17
+    from .common import RuleCtx as _RC2
+    _rc2 = _RC2(ctx)
+    _c17._sec_intwidth(_rc2, "Y-int", dict(_c17.INT_SHAPES, **_c16.INT_SHAPES))
     ma = MutationAnalysis(ctx.repo, ctx.linker)
     res.analysed["mutation_fixpoint_rounds"] = ma.rounds
     res.analysed["summaries_writing"] = {q: s.writes for q, s in ma.summaries.items() if s.writes}
